@@ -26,12 +26,12 @@ GROUPS = {
     'profiles': ['profiles'],
     'model': ['make_model_image'],
     'psf': ['PSFPhotometry'],
-    'centroids': ['centroids', 'data_properties'],
+    'centroids': ['centroids', 'data_properties'],     # data_properties has no translation relation and is skipped there
 }
 CLASSES = ['translate:aperture', 'translate:catalog', 'transpose:catalog', 'translate:peaks',
            'translate:starfinders', 'transpose:aperture', 'translate:segm', 'translate:profiles',
            'transpose:centroids', 'translate:model', 'transpose:profiles', 'translate:psf',
-           'translate:catalog_hostile', 'transpose:catalog_hostile']
+           'translate:catalog_hostile', 'transpose:catalog_hostile', 'translate:centroids']
 CLASSES = list(dict.fromkeys(CLASSES))     # unique, order kept
 
 RULE = ('one case = one random scene (3-8 elliptical Gaussians with random orientation and unequal fluxes + '
@@ -300,7 +300,7 @@ def build_case(case):
             # fits have position errors of 1-3 px and amplify the fit noise beyond any useful tolerance
             scene['opts'][ep.name]['iterative'] = False
     if rel == 'translate':
-        pads = gen.draw_pads(rng)
+        pads = gen.draw_pads(rng, shape=scene['data'].v.shape)
         scene2 = gen.translated(scene, pads)
     else:
         pads = (0, 0, 0, 0)
